@@ -678,6 +678,21 @@ def run_C08(ctx):
         items += [rnd.choice(["w 1", "w 2", "w 3"]), "snap"] * rnd.randint(1, 5) + ["wi", "snap", "G"]
         cases.append("TRACE %s | %s" % (cfg, " ; ".join(items)))
         ctx.count("postponed_removal_schedules")
+    # two purges, each making another closed chunk obsolete, each flushed with a failing sync (the
+    # removals pile up in the worker), then a flush that succeeds: all of them, oldest first
+    for j in range(ctx.scale(10, 60)):
+        R = rnd.choice([3, 4, 5])
+        cfg = "100000 1073741824 %d 1073741824 1 64" % R
+        k = rnd.choice([3, 4])
+        n1 = k * (R - 1)
+        items = ["A 1 %d x%02x" % (i, i) for i in range(n1)] + ["F 1", "wi"]
+        c1 = rnd.randint(1, k - 2)
+        c2 = rnd.randint(c1 + 1, k - 1)
+        for c in (c1, c2):
+            items += ["P 1 %d" % (c * (R - 1) - 1), "fault sync %d" % rnd.choice([0, 0, 1]), "F 1", rnd.choice(["wi", "wi", "w 2"])]
+        items += ["wi", "F 1", "wi", "snap", "G"] + (["F 1", "wi", "snap", "G"] if rnd.random() < 0.5 else [])
+        cases.append("TRACE %s | %s" % (cfg, " ; ".join(items)))
+        ctx.count("two_postponed_removals_schedules")
     # a chunk closed since the last successful flush, a purge, and a flush during which the
     # sync of that just-closed chunk fails: the removal must wait (the purge record is not durable)
     for j in range(ctx.scale(12, 80)):
@@ -1024,6 +1039,26 @@ def run_C07(ctx):
         line, st = gen_schedule(rnd, rnd.randint(6, ctx.scale(30, 60)), cfg, faults=0, reads=True, small_cache=True)
         # a stat before every read so that rotations are visible to the classifier
         tcases.append(line.replace(" ; R ", " ; G ; R ").replace(" ; D ;", " ; G ; D ;"))
+    # a chunk rotated while the worker is held (its tail only queued), flushes that nobody waits
+    # for, more appends under a cache that is over its limit, then reads of the rotated chunks
+    for j in range(ctx.scale(16, 100)):
+        R = rnd.choice([3, 4, 5])
+        cfg = "%d %d %d 1073741824 1 %d" % (rnd.choice([0, 0, 1]), rnd.choice([0, 8, 1 << 30]), R, rnd.choice(gen.CFG_RBUF))
+        items, idx = [], 0
+        for rot in range(rnd.randint(1, 3)):
+            for _ in range(R - 1):
+                items.append("A 1 %d %s" % (idx, gen.hx(gen.rand_payload(rnd, big=0.0)))); idx += 1
+            items.append(rnd.choice(["F 1", "F 1", "F 0"]))
+            if rnd.random() < 0.3:
+                items.append(rnd.choice(["w 1", "w 2"]))
+            for _ in range(rnd.randint(1, 2)):
+                items.append("A 1 %d %s" % (idx, gen.hx(gen.rand_payload(rnd, big=0.0)))); idx += 1
+            items += ["G", "R 0 100000", "G", "D"]
+            for _ in range(R - 1 - (idx % (R - 1)) if idx % (R - 1) else 0):
+                items.append("A 1 %d x" % idx); idx += 1
+        items += ["wi", "G", "R 0 100000"]
+        tcases.append("TRACE %s | %s" % (cfg, " ; ".join(items)))
+        ctx.count("reads_of_rotated_unwritten_chunks")
     logs, rep = trace_check(ctx, "c07", tcases)
     tw = [writes_of_case(c, l) for c, l in zip(tcases, logs)]
     for c, l, ws in zip(tcases, logs, tw):
@@ -1031,19 +1066,20 @@ def run_C07(ctx):
             continue
         ev = [e.strip() for e in l.split(" ; ")]
         # calls with their results, and chunk creations inside calls, in order
-        seqev, cur = [], None
+        seqev, cur, rotated = [], None, False
         for e in ev:
             if e.startswith("c call "):
-                cur = e[7:]
+                cur, rotated = e[7:], False
             elif e.startswith("c ret ") and cur is not None:
                 seqev.append((cur, e[2:]))
+                # a rotation inside the call comes after the record was applied: the closing last id
+                # is at most the greatest id known once the call is over (for a single-entry append:
+                # exactly that entry), and no entry of the same call lies below it
+                if rotated:
+                    seqev.append(("create", ""))
                 cur = None
             elif e.startswith("c create ") and cur is not None:
-                # a rotation inside a multi-entry append: entries appended so far by this call count
-                t = cur.split()
-                if t[0] == "A":
-                    seqev.append(("A " + " ".join(t[1:4]), "ret ok"))
-                seqev.append(("create", ""))
+                rotated = True
         calls = [(o, r[4:] if r.startswith("ret ") else r) for o, r in seqev if o != "create"]
         for k, (o, r) in enumerate(seqev):
             if (o.startswith("R ") or o == "D") and ("err:" in r or "panic" in r):
